@@ -496,6 +496,15 @@ impl World {
                         // application's own (an instrumented helper): same request, same deadline
                         let inner = tracing::info_span!("lookup").in_scope(context::current);
                         log_ctx(&sh3, "hcurrent", i, &inner);
+                        // a handler that reads a frame itself (a callback connection, a relayed
+                        // message): a JSON request without a deadline gets the documented default,
+                        // 10 s from now - not this request's deadline
+                        let js = r#"{"Request":{"context":{"trace_context":{"trace_id":[1,0,0,0,0,0,0,0,0,0,0,0,0,0,0,0],"span_id":2,"sampling_decision":"Sampled"}},"id":9,"message":3}}"#;
+                        if let Ok(tarpc::ClientMessage::Request(r)) = serde_json::from_str::<tarpc::ClientMessage<u32>>(js) {
+                            sh3.log.push(Rec::N("hdefault", vec![i as i128, rel_ns(sh3.log.t0, r.context.deadline), sh3.log.now_ns()]));
+                        } else {
+                            sh3.log.push(Rec::N("hdefault", vec![i as i128, -1, sh3.log.now_ns()]));
+                        }
                     }
                     let out = match next {
                         Some(c) => c.call(ctx, req + 1).await.map_err(|e| ServerError::new(io::ErrorKind::Other, e.to_string())),
